@@ -125,9 +125,15 @@ def round_trips(repo, it, obj, cls_name, parent, desc, want_parent_export=False)
         out.append(("from_dict(to_dict)", f"{desc}: from_dict(to_dict()) raises {back}", f_from.qual))
     else:
         k2, d2 = run(it, f_to, [], {}, back)
+        qa, qb = _quals(obj), _quals(back)
         if k2 != "ok" or plain(d2) != plain(d):
             diff = _diff(plain(d), plain(d2)) if k2 == "ok" else d2
             out.append(("from_dict(to_dict)", f"{desc}: dictionary round trip changes the object: {diff}", f_from.qual))
+        elif qa != qb:
+            out.append(("from_dict(to_dict) qualifiers", f"{desc}: the re-built object has qualifiers {qb}; the original has {qa}", f_to.qual))
+        elif str(back.fields.get("guid")) != str(obj.fields.get("guid")):
+            out.append(("from_dict(to_dict) guid", f"{desc}: the re-built object has guid {back.fields.get('guid')}; the original has "
+                        f"{obj.fields.get('guid')}", f_from.qual))
         elif plain(back.fields.get("_location") and it.py_str(back.fields["_location"])) != plain(
                 obj.fields.get("_location") and it.py_str(obj.fields["_location"])):
             out.append(("from_dict keeps the parent", f"{desc}: the re-built object sits on another location "
@@ -152,6 +158,13 @@ def round_trips(repo, it, obj, cls_name, parent, desc, want_parent_export=False)
     return n, out
 
 
+def _quals(o):
+    q = o.fields.get("qualifiers")
+    if not isinstance(q, dict):
+        return q
+    return {str(k): sorted(str(x) for x in v) for k, v in q.items()}
+
+
 def _diff(a, b, path=""):
     if isinstance(a, dict) and isinstance(b, dict):
         for k in sorted(set(a) | set(b), key=str):
@@ -164,6 +177,20 @@ def _diff(a, b, path=""):
     return f"{path or 'value'}: {str(a)[:120]!r} -> {str(b)[:120]!r}"
 
 
+# qualifiers that are flags (a key with no value) at every level: export and import must keep the key
+VALUELESS = [
+    dict(kind="gene", gene_id="G4", gene_symbol="flagged", gene_type="protein_coding", locus_tag=None,
+         qualifiers={"pseudo": []},
+         transcripts=[dict(exons=[(33, 39), (42, 48)], strand="PLUS", cds=[(34, 39), (42, 46)], start_frame=0, transcript_id="T9",
+                           transcript_symbol="t9", transcript_type="protein_coding", protein_id="P9", product=None,
+                           qualifiers={"pseudo": [], "note": ["has a flag"]})]),
+    dict(kind="fc", feature_collection_id="FC4", feature_collection_name="flags", feature_collection_type=None, locus_tag=None,
+         qualifiers={"partial": []},
+         features=[dict(blocks=[(40, 44)], strand="PLUS", feature_name="f4", feature_id=None, feature_types=["site"],
+                        qualifiers={"flag": []})]),
+]
+
+
 def _case(repo, it, S, spec):
     parent_kind, what = spec
     out = []
@@ -174,13 +201,14 @@ def _case(repo, it, S, spec):
         parent = chunk_parent(it, GENOME, 2, 49, alphabet="NT_EXTENDED")
     else:
         parent = None
-    ms = models()
+    ms = models() + VALUELESS
     desc0 = f"parent={parent_kind}"
     try:
         objs = [build(it, S, parent, m) for m in ms]
     except Raised as ex:
         return 1, [("construct", f"{desc0}: {ex.exc_name}", "gene.gene:GeneInterval.__init__")]
-    genes, fcs = objs[:2], objs[2:]
+    genes = [o for o, m in zip(objs, ms) if m["kind"] == "gene"]
+    fcs = [o for o, m in zip(objs, ms) if m["kind"] != "gene"]
     if what == "intervals":
         for g in genes:
             for tx in g.fields["transcripts"]:
